@@ -58,7 +58,12 @@ class Check:
         self.rules[rid] = text
 
     def _add(self, rule, key, where, verdict, detail, nontrivial=True):
-        self.instances.append(Instance(rule, f"{rule}|{key}", where, verdict, detail, nontrivial))
+        full = f"{rule}|{key}"
+        # the same construct seen through several CFG copies (finally duplication) is one instance
+        for i in self.instances:
+            if i.key == full and i.verdict == verdict and i.where == where:
+                return
+        self.instances.append(Instance(rule, full, where, verdict, detail, nontrivial))
 
     def ok(self, rule, key, where, detail="", nontrivial=True):
         self._add(rule, key, where, OK, detail, nontrivial)
